@@ -80,7 +80,34 @@ RowAgreeFails(ev) ==
     ELSE IF ev.out = "bothraise" THEN {}     \* resolution of the spelling is C10's business; both paths agree it fails
     ELSE AgreeFails(ev)
 
+(* ---------------------------------------------------------------------------------------------------- *)
+(* C12: global rules equal the explicit per-residue form.                                                  *)
+(* k = "static": A carries static rules; ev.condensed = condense_static_mods(text); ev.pairs = sequence of *)
+(* [what, a, b]: the same real query on the rule form (a) and on the explicit form (b), projected alike.   *)
+StaticFails(ev) ==
+    IF ev.text # Write(ev.A, FALSE) THEN {"MACHINERY_text_not_spec_text"}
+    ELSE IF ev.out # "ret" THEN {"raised_" \o ev.out}
+    ELSE (IF ev.condensed # Write(CondenseStatic(ev.A, StaticRules(ev.A)), FALSE) THEN {"condensed_form_is_not_the_explicit_form"} ELSE {})
+         \cup { "differs_" \o ev.pairs[q].what : q \in { r \in 1..Len(ev.pairs) :
+                     IF ev.pairs[r].kind = "fix" THEN ~FWithin(ev.pairs[r].a, ev.pairs[r].b, Micro(1))
+                     ELSE IF ev.pairs[r].kind = "fixbag" THEN
+                          LET a == ev.pairs[r].a  b == ev.pairs[r].b IN
+                          Len(a) # Len(b) \/ \E i \in 1..Len(a) : ~FWithin(a[i], b[i], Micro(1))
+                     ELSE ev.pairs[r].a # ev.pairs[r].b } }
+
+(* k = "label": neutral precursor mass with and without the global isotope labels *)
+LabelFails(ev) ==
+    IF ev.out # "ret" THEN {"raised_" \o ev.out}
+    ELSE LET A == ev.A
+             plain == [ A EXCEPT !.isotope = <<>> ]
+             want == FSub(SemMass(NeutralSem(A, TRUE, ev.labelMods), ev.mono), SemMass(NeutralSem(plain, TRUE, FALSE), ev.mono))
+             got == FSub(ev.labelled, ev.plain) IN
+         IF ~AllResolvable(A, ev.mono) THEN {"MACHINERY_generator_gave_unresolvable_annotation"}
+         ELSE IF FWithin(got, want, BaseTol(ev.mono)) THEN {} ELSE {"label_shift_is_not_atoms_times_isotope_difference"}
+
 Fails(ev) == CASE ev.k = "mass" -> MassFails(ev)
+               [] ev.k = "static" -> StaticFails(ev)
+               [] ev.k = "label" -> LabelFails(ev)
                [] ev.k = "agree" -> AgreeFails(ev)
                [] ev.k = "estimate" -> EstimateFails(ev)
                [] ev.k = "rowagree" -> RowAgreeFails(ev)
@@ -134,6 +161,11 @@ Detail(ev) == CASE ev.k \in {"agree", "rowagree"} /\ ev.out = "ret" /\ Comp8Reso
                       <<"mass", ev.massRes, "viaComp", FAdd(Comp8Mass(ev.comp, ev.mono), ev.delta)>>
                 [] ev.k = "estimate" /\ ev.out = "ret" /\ Comp8Resolvable(ev.comp, TRUE) ->
                       <<"mass", ev.massRes, "viaComp", Comp8Mass(ev.comp, TRUE)>>
+                [] ev.k = "label" /\ ev.out = "ret" ->
+                      <<"wantShift", FSub(SemMass(NeutralSem(ev.A, TRUE, ev.labelMods), ev.mono),
+                                          SemMass(NeutralSem([ev.A EXCEPT !.isotope = <<>>], TRUE, FALSE), ev.mono)),
+                        "gotShift", FSub(ev.labelled, ev.plain)>>
+                [] ev.k = "static" /\ ev.out = "ret" -> <<"wantCondensed", Write(CondenseStatic(ev.A, StaticRules(ev.A)), FALSE)>>
                 [] ev.k = "mass" /\ ev.text = Write(ev.A, FALSE) /\ AllResolvable(ev.A, ev.mono) ->
                       <<"want", PrecursorMass(ev.A, EffZ(ev), EffAdducts(ev), ev.iso, ev.loss, ev.mono, FALSE), "got", ev.res>>
                 [] OTHER -> <<>>
